@@ -274,7 +274,9 @@ fn seq<F: CKind>(args: &Args) {
                 }
             } else if c < 126 {
                 let k = rng.below(3.min(live.len()) + 1);
-                let roots: Vec<Arg> = (0..k).map(|_| Some(pick(&mut rng, &live))).collect();
+                // (an invalid handle now and then: it is skipped together with its name)
+                let roots: Vec<Arg> =
+                    (0..k).map(|_| if rng.chance(1, 6) { None } else { Some(pick(&mut rng, &live)) }).collect();
                 s.dot(&roots, rng.chance(1, 2));
             } else {
                 s.obs();
